@@ -31,7 +31,12 @@ pub fn write_module(
     for segment in key.iter() {
         path.push(segment.as_str());
     }
-    path.set_extension("rs");
+    // Not `set_extension`: a module named `foo.v1` must not end up in `foo.rs`.
+    let file_name = format!(
+        "{}.rs",
+        key.last().context("failed to get last of module path")?
+    );
+    path.set_file_name(file_name);
 
     let directory_path = path.parent().map(|p| p.to_path_buf()).unwrap_or_default();
     std::fs::create_dir_all(directory_path)?;
